@@ -1,7 +1,9 @@
 /-
   Props/C02All.lean — the module audited for C02: Props/C02.lean (record sections, circles, spinners, hold notes),
   Props/C02Slider.lean (path strings, slider lines, the [HitObjects] block) and Props/C02Timing.lean (timing-point
-  lines, redundancy suppression, the timing round trip in exact arithmetic). All three are in namespace `Rosu.C02`.
+  lines, redundancy suppression, the timing round trip in exact arithmetic) and Props/C02Decoded.lean (the record round trip
+  for every decoded map). All four are in namespace `Rosu.C02`.
 -/
 import RosuModel.Props.C02Slider
 import RosuModel.Props.C02Timing
+import RosuModel.Props.C02Decoded
